@@ -365,8 +365,10 @@ class World:
         gw.tasks.add_job = tagging_add_job
         if self.persistence:
             if self.flavour != "sync":
-                raise NotImplementedError("async persistence worlds live in vloop-based checks")
-            gw.start_persistence()
+                # sequential async worlds only load (start_persistence proper needs a loop: see vloop checks)
+                gw.tasks.persistence.safe_load_sensors()
+            else:
+                gw.start_persistence()
 
     # -- stepping ----------------------------------------------------------------------------
 
@@ -451,7 +453,14 @@ class World:
             elif kind == "restart":
                 self.restart()
             elif kind == "start":
-                self.gw.start()
+                res = self.gw.start()
+                if hasattr(res, "send"):
+                    # async flavour: MQTT start() has no real suspension point; drive the coroutine
+                    try:
+                        res.send(None)
+                        raise RuntimeError("async start() suspended in a sequential world")
+                    except StopIteration:
+                        pass
             else:
                 raise ValueError(f"unknown event {ev!r}")
         except Exception as exc:
